@@ -4,7 +4,7 @@ import CasbinV.Model.LoadOrd
 /-! driver family `enfo` (stateful): the enforcer state machine of a model that ORDERS its rules on `load_policy`
 (C11, ordering residue).  Everything of family `enf` (delegated), plus
 
-`initord <prio|subj> <adapter T/F> <p rules> <g rules>`  state after construction + `load_policy` (ordered, links built)
+`initord <prio|subj|subjdom> <adapter T/F> <p rules> <g rules>`  state after construction + `load_policy` (ordered, links built)
 `op load <k|->`   the ordering reload (`Casbin.Enf.loadOrd`); answer as for `enf`
 `q enforce <req>` decision under the priority effect (`enforceQO`); spec = freshly constructed enforcer
 `q order`         `model=` what the ordering step makes of the current adapter store (rules of `p` in order, or the
@@ -29,7 +29,7 @@ def showRetL : Except LErr Ret → String
   | .ok r => Casbin.Driver.Enf.showRet (.ok r)
 
 def oshapeOf : String → Option OShape
-  | "prio" => some .prio | "subj" => some .subj | _ => none
+  | "prio" => some .prio | "subj" => some .subj | "subjdom" => some .subjDom | _ => none
 
 /-! independent executable spec of the ordering step -/
 
@@ -46,7 +46,7 @@ def specPrio (pi : Nat) (l : List Rule) : String :=
       encRules (l.mergeSort fun a b => decide ((prioOf pi a).getD 0 ≤ (prioOf pi b).getD 0))
     else encRules (l.mergeSort fun a b => !decide (b.getD pi "" < a.getD pi ""))
 
-def specSubj (g p : List Rule) : String :=
+def specSubj (domIdx : Option Nat) (g p : List Rule) : String :=
   if g.any (·.length < 2) then "!gShort"
   else
     let edges : List HEdge := g.map fun r => let d := if r.length == 2 then "" else r.getD 2 ""
@@ -54,15 +54,18 @@ def specSubj (g p : List Rule) : String :=
     match hierarchyMap edges with
     | .error _ => "!cycle"
     | .ok m =>
-      if p.any (·.isEmpty) then "!IndexError"
-      else encRules (p.mergeSort fun a b => decide (levelOf m (nameWithDomain "" (a.getD 0 "")) ≤ levelOf m (nameWithDomain "" (b.getD 0 ""))))
+      let need := match domIdx with | none => 1 | some i => i + 1
+      if p.any (·.length < need) then "!IndexError"
+      else
+        let key := fun (r : Rule) => levelOf m (nameWithDomain (match domIdx with | none => "" | some i => r.getD i "") (r.getD 0 ""))
+        encRules (p.mergeSort fun a b => decide (key a ≤ key b))
 
 def step (x : DStO) (fs : List String) : DStO × String :=
   match fs with
   | ["initord", sh, ad, p, g] =>
     match oshapeOf sh, decBool ad, decRules p, decRules g with
     | some sh, some ad, some p, some g =>
-      let cfg : Casbin.Enf.Cfg := { gCount := 2, g2Count := 0, hasAdapter := ad }
+      let cfg : Casbin.Enf.Cfg := { gCount := sh.gCount, g2Count := 0, hasAdapter := ad }
       let store : Pol := { p := p, g := g, g2 := [] }
       match orderStore sh.ordCfg store with
       | .error e => (x, showOErr e)
@@ -104,7 +107,8 @@ def step (x : DStO) (fs : List String) : DStO × String :=
       | .ok pol => encRules pol.p
     let s := match x.osh with
       | .prio => specPrio 0 st.p
-      | .subj => specSubj st.g st.p
+      | .subj => specSubj none st.g st.p
+      | .subjDom => specSubj (some 2) st.g st.p
     (x, "model=" ++ m ++ " spec=" ++ s)
   | _ =>
     let (d', ans) := Casbin.Driver.Enf.step x.d fs
